@@ -65,6 +65,9 @@ def run_case(case):
 def check_case(case):
     if not O.valid_case(case):
         return []
+    prog = O.Prog(O.render(case["tree"]))
+    if any(prog.nested_interrupt_in_alarm(l.id) for l in prog.lines):
+        return []      # outside C05's domain (see run_shard): the shape belongs to C02's registered finding
     return run_case(case)[0]
 
 
@@ -129,4 +132,7 @@ def run_shard(col, cfg):
             classes = classes + ["excluded_known:interrupt-in-repeated-body"]
         col.record(case, nontrivial, classes=classes, violations=vs,
                    sample={"method": G.text_of(tr.prog.lines), "traj": case["traj"], "init": case["init"], "ticks": case["ticks"]})
-    hyp_run(O.cases(gcfg, int(cfg["ticks"])), body, max(1, int(cfg["examples"]) // col.nshards), shard_seed(col.seed, col.shard), col)
+    # Watch/Alarm declared in a repeated body (Alarm / Macro): registered finding of C02 (`interrupt-in-repeated-body:...`);
+    # its block-side symptoms are the same root cause, so the shape is excluded here by construction (counted as class
+    # excluded_known:interrupt-in-repeated-body) instead of being reported a second time under C05
+    hyp_run(O.cases(gcfg, int(cfg["ticks"]), keep_nested=False), body, max(1, int(cfg["examples"]) // col.nshards), shard_seed(col.seed, col.shard), col)
